@@ -92,11 +92,7 @@ def run_fixtures(verbose=False):
     from props.common import ConcreteCtx
     from spec import pp as specpp
     repo = build.copy_repo()
-    e = build._env('target-replay')
-    r = subprocess.run(['cargo', 'build', '--offline'], cwd=repo, env=e, stdout=subprocess.PIPE, stderr=subprocess.PIPE, text=True)
-    if r.returncode != 0:
-        raise RuntimeError('cli build failed: ' + r.stderr[-2000:])
-    cli = os.path.join(build.CACHE, 'target-replay', 'debug', 'txtpp')
+    cli = build.build_native(repo)['txtpp']
     m = build.machine()
     pre = m.free['preprocess']
     ex_root = os.path.join(repo, 'tests', 'examples')
